@@ -145,6 +145,12 @@ func build(m *fixture.Module, cfg config) []layout.Pkg {
 			m.MustWrite(filepath.Join(d, cfg.Base+".g2.go.tmp"), strings.Repeat("left-over of an interrupted run\n", 300))
 		}
 		m.MustWrite(filepath.Join(d, "data.json"), "{}\n")
+		// user files named like temp / backup / lock files of an output, OUTSIDE the <base>. namespace
+		for _, gn := range []string{"g1", "g2", "g3"} {
+			for _, pat := range []string{".%s.%s.go.tmp", ".%s.%s.go", "_%s.%s.go.tmp", "#%s.%s.go#", ".#%s.%s.go", "~%s.%s.go~", "tmp-%s.%s.go.bak"} {
+				m.MustWrite(filepath.Join(d, fmt.Sprintf(pat, cfg.Base, gn)), "user data, not gengo's\n")
+			}
+		}
 		for _, gn := range []string{"g1", "g2", "g3"} {
 			if cfg.Prev[p.Dir+"|"+gn] {
 				m.MustWrite(filepath.Join(d, cfg.Base+"."+gn+".go"), prevContent(p.Name, gn))
@@ -405,7 +411,45 @@ func (p *prop) runConfig(c core.Case, w *core.Worker, res *core.Result, cfg conf
 			return
 		}
 	} else {
+		// inotify on every directory of the tree for the duration of the run: creations, deletions, renames and
+		// modifications of directory entries are recorded as they happen, transient files included
+		watcher, werr := fixture.Watch(m.Root)
 		run = specgen.RunInProcess(m.Root, args, cfg.Gens)
+		if werr == nil {
+			evs, overflow := watcher.Stop()
+			if overflow {
+				res.Inc("inotify_queue_overflows")
+			} else {
+				ex := processedPkgs(cfg, ps)
+				okDir := map[string]bool{}
+				for _, pk := range ps {
+					if ex[pk.Path(mod)] {
+						d := pk.Dir
+						if d == "" {
+							d = "."
+						}
+						okDir[d] = true
+					}
+				}
+				seen := map[string]bool{}
+				for _, ev := range evs {
+					res.Inc("inotify_events_observed")
+					if ev.Rel == "gengo.sum" && cfg.All {
+						continue
+					}
+					if okDir[filepath.Dir(ev.Rel)] && strings.HasPrefix(filepath.Base(ev.Rel), cfg.Base+".") {
+						continue
+					}
+					key := strings.Replace(filepath.Base(ev.Rel), cfg.Base, "<base>", 1)
+					if !seen[ev.Rel] {
+						seen[ev.Rel] = true
+						res.Fail("outside-allow-set", "during the run (inotify): "+key, fmt.Sprintf("%s: %s while the run was in progress - not a <base>.* file of a processed package (transient files count: the statement says creates, rewrites or deletes)\n(config: base=%s all=%v root=%v entries=%v)", ev.Rel, ev.What(), cfg.Base, cfg.All, cfg.Root, cfg.Entries), cfg)
+					}
+				}
+			}
+		} else {
+			res.Inc("inotify_unavailable")
+		}
 	}
 	res.Evals++
 	if cfg.nonTrivial() {
